@@ -1132,6 +1132,15 @@ class WasmToIrCompiler:
             value = self.emit(ir.Binop(a, op, b, name, u_ir_typ))
             value = self.emit(ir.Cast(value, "cast", ir_typ))
         else:
+            if opname == "rem_s":
+                # The sign of the divisor has no influence on the remainder,
+                # and INT_MIN % -1 (which is 0) overflows on most targets.
+                # So take the remainder by abs(b), computed as (b ^ s) - s
+                # where s is the sign of b (0 or -1).
+                n = self.emit(ir.Const(ir_typ.bits - 1, "sign_shift", ir_typ))
+                s = self.emit(ir.Binop(b, ">>", n, "sign", ir_typ))
+                b = self.emit(ir.Binop(b, "^", s, "flipped", ir_typ))
+                b = self.emit(ir.Binop(b, "-", s, "abs_divisor", ir_typ))
             value = self.emit(ir.Binop(a, op, b, name, ir_typ))
         self.push_value(value)
 
